@@ -26,6 +26,12 @@ type PeerSpec struct {
 	// Early: dialled at start, right after the honest peer's handshake
 	// (otherwise only on a connect event).
 	Early bool `json:"early,omitempty"`
+	// DelayMs: virtual time the peer takes to answer each request. With
+	// delays the filter-header sync is spread over virtual time, so that
+	// growth and reorganisations of the script fall into the middle of it.
+	// The honest peer stays well below the client's query timeouts (a peer
+	// that is too slow is treated like one that does not serve).
+	DelayMs int `json:"delay_ms,omitempty"`
 }
 
 type Event struct {
@@ -41,12 +47,12 @@ type Case struct {
 	World kit.WorldSpec `json:"world"`
 	// FilterPrefill: filter headers already committed (block headers are
 	// pre-filled up to World.Base).
-	FilterPrefill int        `json:"filter_prefill"`
+	FilterPrefill int `json:"filter_prefill"`
 	// BlockLag: the block-header store starts this many blocks behind the
 	// peers (so that a header sync precedes the filter-header sync).
-	BlockLag int `json:"block_lag"`
-	Peers         []PeerSpec `json:"peers"`
-	Events        []Event    `json:"events"`
+	BlockLag int        `json:"block_lag"`
+	Peers    []PeerSpec `json:"peers"`
+	Events   []Event    `json:"events"`
 }
 
 var provable = map[string]bool{"omit": true, "inconsistent": true, "unserved": true}
@@ -92,7 +98,7 @@ func genCase(big bool) func(t *rapid.T) Case {
 			c.FilterPrefill = fpm
 		}
 		np := rapid.IntRange(2, 6).Draw(t, "npeers")
-		c.Peers = []PeerSpec{{Kind: "honest"}}
+		c.Peers = []PeerSpec{{Kind: "honest", DelayMs: kit.Pick(t, "hdelay", []int{0, 0, 0, 20, 200})}}
 		fp := c.FilterPrefill
 		if fp < 0 {
 			fp = 0
@@ -107,9 +113,13 @@ func genCase(big bool) func(t *rapid.T) Case {
 			if k == "ckptonly" {
 				from = (from/1000 + 1) * 1000
 			}
-			c.Peers = append(c.Peers, PeerSpec{Kind: k, From: from, Early: rapid.Bool().Draw(t, "early")})
+			d := kit.Pick(t, "pdelay", []int{0, 0, 0, 20, 200, 1500, 4000})
+			if k == "honest" && d > 200 {
+				d = 200
+			}
+			c.Peers = append(c.Peers, PeerSpec{Kind: k, From: from, Early: rapid.Bool().Draw(t, "early"), DelayMs: d})
 		}
-		kinds := []string{"connect", "connect", "connect", "grow", "grow", "reorg", "drop", "advance", "advance", "advance"}
+		kinds := []string{"connect", "connect", "connect", "grow", "grow", "reorg", "drop", "advance", "advance", "advance", "advance"}
 		c.Events = rapid.SliceOfN(rapid.Custom(func(t *rapid.T) Event {
 			e := Event{Kind: kit.Pick(t, "kind", kinds)}
 			switch e.Kind {
@@ -120,7 +130,8 @@ func genCase(big bool) func(t *rapid.T) Case {
 			case "reorg":
 				e.N = rapid.IntRange(0, 3).Draw(t, "branch")
 			case "advance":
-				e.N = kit.Pick(t, "secs", []int{1, 4, 12, 45, 130})
+				// (0 = 100 ms: a step into the middle of delayed answers)
+				e.N = kit.Pick(t, "secs", []int{0, 0, 1, 4, 12, 45, 130})
 			}
 			return e
 		}), 2, 18).Draw(t, "events")
@@ -277,6 +288,7 @@ func runCase(t *testing.T, c Case) kit.Verdict {
 		for i, ps := range c.Peers {
 			p := s.Peers[i]
 			p.SetView(base, false)
+			p.Delay = time.Duration(ps.DelayMs) * time.Millisecond
 			if i == 0 {
 				p.Override = func(p *netsim.Peer, m wire.Message) bool {
 					if _, ok := m.(*wire.MsgGetHeaders); ok {
@@ -348,7 +360,11 @@ func runCase(t *testing.T, c Case) kit.Verdict {
 					}
 				}
 			case "advance":
-				if !s.Advance(time.Duration(e.N) * time.Second) {
+				d := time.Duration(e.N) * time.Second
+				if e.N == 0 {
+					d = 100 * time.Millisecond
+				}
+				if !s.Advance(d) {
 					return
 				}
 			}
@@ -386,6 +402,14 @@ func runCase(t *testing.T, c Case) kit.Verdict {
 				v.Class("lie-exercised:%s", ps.Kind)
 			}
 			if !provable[ps.Kind] || o.dropped[i] || !p.HasLied() || int(ft) < ps.From {
+				continue
+			}
+			// A slow liar's answers can reach the client after the
+			// query they belong to has timed out: the lie is on the
+			// wire but was never looked at. Only liars that answer
+			// promptly must have been caught.
+			if ps.DelayMs > 200 {
+				v.Class("slow-liar:no-ban-demanded")
 				continue
 			}
 			if !s.CS.IsBanned(p.Addr.String()) {
